@@ -15,7 +15,7 @@ from .values import sig
 from .driver import make_exc
 
 ASYNC_FLAVOURS = ("agen", "aclass", "aclass_noclose", "aplain", "agenlike", "aeager", "aeagerstop", "aproxy", "areiter", "alateclose", "agencoro")
-SYNC_FLAVOURS = ("list", "seq", "iter", "tuple", "tuplesub", "reiter", "sgen", "ringlist", "range")
+SYNC_FLAVOURS = ("list", "seq", "iter", "tuple", "tuplesub", "reiter", "sgen", "ringlist", "range", "iter_noasync", "iter_hint0")
 SRC_FLAVOURS = ASYNC_FLAVOURS + SYNC_FLAVOURS
 FN_FLAVOURS = ("def", "async", "partial", "obj", "objaw", "falsyobj", "eqobj", "unhashobj", "aeqobj", "gencoro", "classaw", "defcoro", "eagercoro")
 
@@ -132,6 +132,22 @@ class SyncSource(SourceBase):
         return True
 
     obj = property(lambda self: self)
+
+
+class SyncNoAsyncSource(SyncSource):
+    """a regular iterator that says explicitly that it is NOT asynchronously iterable (``__aiter__ = None``, the way
+    ``__hash__ = None`` marks something unhashable): looking the attribute up finds something, calling it fails"""
+
+    __aiter__ = None
+    __anext__ = None
+
+
+class SyncHintSource(SyncSource):
+    """a regular iterator whose ``__length_hint__`` under-estimates (0 although items are left): a hint is an estimate,
+    "it may be larger or smaller than the actual size", and says nothing about where the data end"""
+
+    def __length_hint__(self):
+        return 0
 
 
 class SyncGenSource(SourceBase):
@@ -587,6 +603,8 @@ _SRC_CLASSES = {
     "tuplesub": TupleSubSource,
     "seq": SeqSource,
     "sgen": SyncGenSource,
+    "iter_noasync": SyncNoAsyncSource,
+    "iter_hint0": SyncHintSource,
     "iter": SyncSource,
 }
 
